@@ -28,6 +28,17 @@ def WithOK : WithClause → Prop
   | .fromTo _ a b => RvOK a ∧ RvOK b
   | .cycle _ start => match start with | some r => RvOK r | none => True
 
+def OWithOK : Option WithClause → Prop
+  | none => True
+  | some wc => WithOK wc
+
+/-- the sources of `repeat in …`: pure names -/
+def ItemOK : IterItem → Prop
+  | .all => True
+  | .light n => RvOK n
+  | .group n => RvOK n
+  | .location n => RvOK n
+
 def LoopHdrOK : LoopHdr → Prop
   | .forever => True
   | .count n => RvOK n
@@ -35,7 +46,10 @@ def LoopHdrOK : LoopHdr → Prop
   | .range _ a b => RvOK a ∧ RvOK b
   | .interp n v a b => RvOK n ∧ WithOK (.fromTo v a b)
   | .cycle n v start => RvOK n ∧ WithOK (.cycle v start)
-  | _ => False
+  | .all _ w => OWithOK w
+  | .groups _ w => OWithOK w
+  | .locations _ w => OWithOK w
+  | .iter items _ w => (∀ i ∈ items, ItemOK i) ∧ OWithOK w
 
 mutual
   /-- statements of the fragment -/
